@@ -191,6 +191,15 @@ def decorations(v, modname, tier, rng, pool=None):
         yield ('surround', ch + v + ch)
         yield ('surround', v + ch)
         yield ('surround', ch + v)
+    # two characters at one end: a separator shielding a blank from strip(), heavy padding (a length test on the raw text)
+    for a in ('\n', ' ', '\t', '\x1c', '\xa0'):
+        for b in ('-', '_', '.', '/', ' '):
+            yield ('surround2', v + a + b)
+            yield ('surround2', b + a + v)
+    for padch in (' ', '-', '.'):
+        yield ('padded', padch * 70 + v)
+        yield ('padded', v + padch * 70)
+        yield ('padded', (padch * 6).join(v))
     use = pool if tier == 'thorough' else rng.sample(pool, min(14, len(pool))) + [' ', '-', '.', '\n', '/']
     for ch in use:
         for p in positions(n, tier, rng, extra=1):
